@@ -284,6 +284,32 @@ func (w *vfWorld) Ask(raw []byte, proto string, ip net.IP, port int, wire bool) 
 	return r
 }
 
+// AskInline is the wire-born ingress as the batch UDP reader drives it: an inline pass that must not block, and -
+// when that pass hands the packet off without having written - the replay of the same packet on a worker.
+func (w *vfWorld) AskInline(raw []byte, ip net.IP, port int) (r vfReply, replayed bool) {
+	if !w.s.InlineReady() {
+		return w.Ask(raw, "udp", ip, port, true), false
+	}
+	local, remote := vfAddrs("udp", ip, port)
+	job := &vfJob{local: local, remote: remote}
+	at := time.Now()
+	r.Handled = w.s.ServeRawInline(job, raw, at)
+	if !r.Handled && len(job.wrote) == 0 {
+		replayed = true
+		r.Handled = w.s.ServeRawReplay(job, raw, at)
+	}
+	r.Writes = job.wrote
+	if len(r.Writes) == 1 {
+		m := new(dns.Msg)
+		if err := m.Unpack(r.Writes[0]); err != nil {
+			r.Err = err.Error()
+		} else {
+			r.Msg = m
+		}
+	}
+	return r, replayed
+}
+
 // vfCanonRR renders a record for multiset comparison: owner lower-cased, TTL kept.
 func vfCanonRR(rr dns.RR, keepTTL bool) string {
 	c := dns.Copy(rr)
